@@ -74,9 +74,15 @@ def parse_date(value):
 
         return None
 
-    t = mktime_tz(t)
+    try:
+        t = mktime_tz(t)
 
-    return datetime.fromtimestamp(t, UTC)
+        return datetime.fromtimestamp(t, UTC)
+    except (ValueError, OverflowError, OSError):
+        # syntactically a date, but not a representable one (year 99999,
+        # absurd zone offset, ...)
+
+        return None
 
 
 def serialize_date(dt):
